@@ -491,7 +491,7 @@ func genOp(rt *rapid.T, lbl string) Op {
 }
 
 func TestSessions(t *testing.T) {
-	pbt.Check(t, 60, 3000, func(rt *rapid.T) {
+	pbt.Check(t, 60, 1500, func(rt *rapid.T) {
 		ns := rapid.IntRange(2, 6).Draw(rt, "sessions")
 		c := Case{Repeat: pbt.Pick(2, 3)}
 		for s := 0; s < ns; s++ {
